@@ -1,0 +1,202 @@
+//go:build verif
+
+// Contracts for the govc verifier (see /verif/DESIGN.md). Comment-only file: with the
+// "verif" build tag off it is not compiled; with it on it contains only the package clause.
+
+package fs
+
+// Ghost record of what Mount / Check / Unmount do with the layer object the resolver hands them (the layer package's
+// own contracts say what those calls mean):
+//   verifiedLayer, verifiedDigest  the layer object and digest of the last successful Verify
+//   skippedLayer                   the layer object of the last SkipVerify
+//   rootLayer                      the layer object whose root node was handed out last
+//   dones, closes                  number of Done / Close calls on layer objects
+//   prioBegun, prioDone            prioritized-task brackets opened / closed
+//   prefetched, prefetchedSize     layer object and size of the last Prefetch started
+//   bgFetched                      layer object of the last background fetch started
+//   waited                         layer object whose prefetch completion was waited for last
+//   checkOKs, refreshOKs           number of connectivity checks / connection refreshes of a layer that succeeded
+// (`quiet`: function values the file system is configured with -- the label-to-source function -- are assumed not to
+// call back into layers or the task manager)
+//@ ghost verifiedLayer ref quiet
+//@ ghost verifiedDigest string quiet
+//@ ghost skippedLayer ref quiet
+//@ ghost rootLayer ref quiet
+//@ ghost dones int quiet
+//@ ghost doneLayer ref quiet
+//@ ghost closes int quiet
+//@ ghost closedLayer ref quiet
+//@ ghost prioBegun int quiet
+//@ ghost prioDone int quiet
+//@ ghost prefetched ref quiet
+//@ ghost prefetchedSize int64 quiet
+//@ ghost bgFetched ref quiet
+//@ ghost waited ref quiet
+//@ ghost waits int quiet
+//@ ghost resolves int quiet
+//@ ghost checkOKs int quiet
+//@ ghost refreshOKs int quiet
+
+//@ func interface fs/layer.Layer.Verify
+//@   modifies verifiedLayer, verifiedDigest
+//@   ensures err == nil ==> verifiedLayer == payload(self) && verifiedDigest == tocDigest
+//@   ensures err != nil ==> verifiedLayer == old(verifiedLayer) && verifiedDigest == old(verifiedDigest)
+//@ func interface fs/layer.Layer.SkipVerify
+//@   modifies skippedLayer
+//@   ensures skippedLayer == payload(self)
+//@ func interface fs/layer.Layer.RootNode
+//@   modifies rootLayer
+//@   ensures rootLayer == payload(self) && (result1 == nil ==> result0 != nil)
+//@ func interface fs/layer.Layer.Done
+//@   modifies dones, doneLayer
+//@   ensures dones == old(dones) + 1 && doneLayer == payload(self)
+//@ func interface fs/layer.Layer.Close
+//@   modifies closes, closedLayer
+//@   ensures closes == old(closes) + 1 && closedLayer == payload(self)
+//@ func interface fs/layer.Layer.Info
+//@   modifies nothing
+//@ func interface fs/layer.Layer.Check
+//@   modifies checkOKs
+//@   ensures (result == nil ==> checkOKs == old(checkOKs) + 1) && (result != nil ==> checkOKs == old(checkOKs))
+//@ func interface fs/layer.Layer.Refresh
+//@   modifies refreshOKs
+//@   ensures (result == nil ==> refreshOKs == old(refreshOKs) + 1) && (result != nil ==> refreshOKs == old(refreshOKs))
+//@ func interface fs/layer.Layer.Prefetch
+//@   modifies prefetched, prefetchedSize
+//@   ensures prefetched == payload(self) && prefetchedSize == prefetchSize
+//@ func interface fs/layer.Layer.BackgroundFetch
+//@   modifies bgFetched
+//@   ensures bgFetched == payload(self)
+//@ func interface fs/layer.Layer.WaitForPrefetchCompletion
+//@   modifies waited, waits
+//@   ensures waited == payload(self) && waits == old(waits) + 1
+//@ func task.(*BackgroundTaskManager).DoPrioritizedTask
+//@   trusted
+//@   modifies prioBegun
+//@   ensures prioBegun == old(prioBegun) + 1
+//@ func task.(*BackgroundTaskManager).DonePrioritizedTask
+//@   trusted
+//@   modifies prioDone
+//@   ensures prioDone == old(prioDone) + 1
+//@ uf dparse(string) string
+//@ func github.com/opencontainers/go-digest.Parse
+//@   trusted
+//@   ensures err == nil ==> result0 == dparse(s)
+//@ uf parsedOK(string) bool
+//@ uf parsedInt(string) int64
+//@ func strconv.ParseInt
+//@   trusted
+//@   ensures (err == nil) == parsedOK(s) && (err == nil ==> result0 == parsedInt(s))
+//@ func fs/layer.(*Resolver).Resolve
+//@   trusted
+//@   modifies resolves
+//@   ensures resolves == old(resolves) + 1 && (result1 == nil ==> result0 != nil)
+//@ func github.com/hanwen/go-fuse/v2/fs.NewNodeFS
+//@   trusted
+//@   ensures true
+//@ func github.com/hanwen/go-fuse/v2/fuse.NewServer
+//@   trusted
+//@   ensures result1 == nil ==> result0 != nil
+//@ func fs/metrics/common.MeasureLatencyInMilliseconds
+//@   trusted
+//@   modifies nothing
+//@ func fs/metrics/common.LogLatencyForLastOnDemandFetch
+//@   trusted
+//@   modifies nothing
+//@ func fs/metrics/layer.(*Controller).Add
+//@   trusted
+//@   modifies nothing
+//@ func fs/metrics/layer.(*Controller).Remove
+//@   trusted
+//@   modifies nothing
+
+// The layer table is guarded by layerMu.
+//@ type filesystem
+//@   guards[C12] layerMu: layer
+//@   invariant[C12] layerMu: self.layer != nil && (forall k string :: k in self.layer ==> self.layer[k] != nil)
+
+// ---- Mount ----
+// C01: a mount succeeds only if verification is disabled by configuration, or the layer object that is registered and
+//      served was verified -- in this very call -- against the TOC digest of the labels, or the labels carry no TOC
+//      digest, ask for skipping, and the configuration allows unverified layers.
+// C12: a layer reference obtained from the resolver is given back exactly once when the mount fails; on success it is
+//      registered under the mountpoint (Unmount gives it back) and not released.
+// C13: the call is bracketed as one prioritized task, closed on every return.
+// C20: the prefetch size is the label's value when it parses, else the configured default.
+//@ func (fs *filesystem) Mount
+//@   props C01,C12,C13,C15,C20
+//@   requires fs.resolver != nil && fs.backgroundTaskManager != nil && fs.getSources != nil && fs.layer != nil && fs.metricsController != nil
+//@   assume after "fs.getSources(labels)" : forall j int :: 0 <= j && j < len(src) ==> src[j] != nil
+// (a layer received from the resolving goroutine is one the resolver returned without error: checked at the send)
+//@   assume before "if fs.disableVerification {" : l != nil
+//@   ensures[C01] retErr == nil ==> l != nil && rootLayer == payload(l)
+//@   ensures[C01] retErr == nil ==> fs.disableVerification || (estargz.TOCJSONDigestAnnotation in labels && verifiedLayer == payload(l) && verifiedDigest == dparse(labels[estargz.TOCJSONDigestAnnotation])) || (!(estargz.TOCJSONDigestAnnotation in labels) && config.TargetSkipVerifyLabel in labels && fs.allowNoVerification && skippedLayer == payload(l))
+//@   ensures[C12] retErr != nil && l != nil ==> dones == old(dones) + 1 && doneLayer == payload(l)
+//@   ensures[C12] retErr == nil || l == nil ==> dones == old(dones)
+//@   ensures[C12] closes == old(closes)
+//@   ensures[C13] prioBegun == old(prioBegun) + 1 && prioDone == old(prioDone) + 1
+//@   assert[C13] before "fs.getSources(labels)" : prioBegun == old(prioBegun) + 1 && prioDone == old(prioDone)
+//@   assert[C12] after "fs.layer[mountpoint] = l" : holds(fs.layerMu)
+//@   assert[C20] before "resultChan = make(chan layer.Layer)" : (config.TargetPrefetchSizeLabel in labels && parsedOK(labels[config.TargetPrefetchSizeLabel])) ? defaultPrefetchSize == parsedInt(labels[config.TargetPrefetchSizeLabel]) : defaultPrefetchSize == fs.prefetchSize
+
+// the resolving goroutine: the first source that resolves wins, its layer is handed to Mount and prefetch is started
+// for that same layer with the size Mount computed; if no source resolves an error is reported (nothing is sent twice)
+//@ func (fs *filesystem) Mount$1
+//@   props C15,C12
+//@   requires fs != nil && fs.resolver != nil && resultChan != errChan
+//@   requires forall j int :: 0 <= j && j < len(src) ==> src[j] != nil
+//@   loop 0 invariant[C15] sent(resultChan) == old(sent(resultChan)) && sent(errChan) == old(sent(errChan)) && fs != nil && fs.resolver != nil && (forall j int :: 0 <= j && j < len(src) ==> src[j] != nil)
+//@   ensures[C15,C12] sent(resultChan) + sent(errChan) == old(sent(resultChan)) + old(sent(errChan)) + 1
+//@   assert[C01,C12] before "resultChan <- l" : l != nil
+//@   assert[C15] after "fs.prefetch(ctx, l, defaultPrefetchSize, start)" : sent(resultChan) == old(sent(resultChan)) + 1
+
+// pre-resolution of the neighbouring layers: the reference taken for prefetching is given back
+//@ func (fs *filesystem) Mount$2
+//@   props C12
+//@   requires fs != nil && fs.resolver != nil
+//@   ensures[C12] resolves == old(resolves) + 1
+//@   ensures[C12] dones == old(dones) || (dones == old(dones) + 1 && doneLayer == payload(l))
+
+// prefetch: unless disabled by configuration, one prefetch (with the given size) and one background fetch are started
+// for the layer
+//@ func (fs *filesystem) prefetch
+//@   props C15
+//@   requires l != nil
+//@   ensures[C15] gocount() == (fs.noprefetch ? 0 : 1) + (fs.noBackgroundFetch ? 0 : 1)
+
+// ---- Check ----
+// C15: unless prefetch is disabled, a successful Check has waited for the prefetch of the layer registered under the
+//      mountpoint; C13: bracketed as a prioritized task.
+//@ func (fs *filesystem) Check
+//@   props C15,C13,C08
+//@   requires fs.backgroundTaskManager != nil && fs.getSources != nil
+//@   ensures[C08] result == nil ==> checkOKs + refreshOKs <= old(checkOKs) + old(refreshOKs) + 1
+//@   ensures[C15] result == nil && !fs.noprefetch ==> waits == old(waits) + 1 && waited == payload(l)
+//@   ensures[C15,C08] result == nil ==> l != nil && locked(mountpoint in fs.layer && fs.layer[mountpoint] == l)
+//@   ensures[C13] prioBegun == old(prioBegun) + 1 && prioDone == old(prioDone) + 1
+
+// C08: the backend reports a layer as available only if its connectivity check passed, or -- after a failed check --
+//      a refresh of its connection with freshly computed source information succeeded (no sources: not available)
+//@ func (fs *filesystem) check
+//@   props C08
+//@   requires fs.getSources != nil && l != nil
+//@   assume after "fs.getSources(labels)" : forall j int :: 0 <= j && j < len(src) ==> src[j] != nil
+//@   loop 0 invariant[C08] rErr != nil && checkOKs == old(checkOKs) && refreshOKs == old(refreshOKs)
+//@   loop 1 invariant[C08] rErr != nil && checkOKs == old(checkOKs) && refreshOKs == old(refreshOKs)
+//@   ensures[C08] result == nil ==> checkOKs + refreshOKs == old(checkOKs) + old(refreshOKs) + 1
+
+// ---- Unmount ----
+// C12: the layer registered under the mountpoint is unregistered and closed exactly once, under the table lock; an
+//      unknown mountpoint closes nothing.
+//@ func golang.org/x/sys/unix.Unmount
+//@   trusted
+//@   modifies nothing
+//@ func (fs *filesystem) Unmount
+//@   props C12
+//@   requires fs.metricsController != nil
+//@   ensures[C12] locked(mountpoint != "" && mountpoint in fs.layer) ==> closes == old(closes) + 1 && closedLayer == payload(locked(fs.layer[mountpoint])) && !(mountpoint in fs.layer)
+//@   ensures[C12] !locked(mountpoint != "" && mountpoint in fs.layer) ==> closes == old(closes) && result != nil
+//@   ensures[C12] dones == old(dones)
+//@ func unmount
+//@   trusted
+//@   modifies nothing
